@@ -274,8 +274,10 @@ func fetchLabelBatch(repo string, stores context2.Stores, settings Settings, key
 		return nil, werr
 	}
 
-	// sort result batch
-	sort.Sort(lbs)
+	// sort result batch by key, so that the concatenation of batches follows the order of the key scan
+	sort.SliceStable(lbs, func(i, j int) bool {
+		return model.GetArchivePathToLabel(repo, lbs[i].Name) < model.GetArchivePathToLabel(repo, lbs[j].Name)
+	})
 	return lbs, nil
 }
 
